@@ -356,6 +356,20 @@ def dumpT (env : Env) (t : Items) (validate : Bool) : Except Err Export.Bytes :=
       | .ok b => .ok b
       | .error e => .error (ofExport e)
 
+/-- `Torrent.infohash` of a returned torrent (no stored `_infohash`): C07's `infoBytes` = validate,
+    then bencode `info`.  (A RecursionError of the encoder is a MetainfoError since 19d011f; the
+    frame count of this path is not modelled — the harness compares it only when `dumpT`'s frame
+    test passes with a margin.) -/
+def infohashT (env : Env) (t : Items) : Except Err Export.Bytes :=
+  match Validate.infoBytes env.urlOk Validate.noPath t with
+  | .ok b => .ok b
+  | .error e => .error (ofExport e)
+
+/-- the rule `validate()` applies to `info.md5sum` and `info.files[i].md5sum`
+    (`assert_type(…, (str,), must_exist=False, check=utils.is_md5sum)`) -/
+def md5Rule : Validate.Rule :=
+  { types := PyVal.isStr, mustExist := false, check := some Validate.isMd5sum }
+
 /-! ### Magnet.from_string -/
 
 structure MagnetOracle where
@@ -514,15 +528,18 @@ def withXt (o : MagnetOracle) (q : List (String × List String)) : Except Err Ma
       | .error e => .error e
       | .ok ih => params o q ih
 
-/-- `Magnet.from_string(uri)` -/
+/-- everything after `parse_qs`: the unknown-parameter test, the `xt` checks, the setters -/
+def afterQs (o : MagnetOracle) (q : List (String × List String)) : Except Err Magnet :=
+  if q.any (fun kv => !knownParams.contains kv.1 && !kv.1.startsWith "x_") then .error .magnet
+  else withXt o q
+
+/-- `Magnet.from_string(uri)` (`parse_qs` as an oracle; `Model/QueryString.lean` models it) -/
 def fromString (o : MagnetOracle) (uri : String) : Except Err Magnet :=
   match o.urlparse uri with
   | none => .error .magnet                              -- except ValueError
   | some (scheme, query) =>
     if scheme != "magnet" then .error .magnet
-    else if (o.parseQs query).any (fun kv => !knownParams.contains kv.1 && !kv.1.startsWith "x_") then
-      .error .magnet
-    else withXt o (o.parseQs query)
+    else afterQs o (o.parseQs query)
 
 /-- executable test "this result is exactly that error" (the result types have no decidable
     equality) -/
